@@ -456,6 +456,11 @@ def c4_exceptions(fb, rep):
     clause = 'C17.4'
     cg, _ = common.graphs(fb)
     xf = X.ExceptionFlow(fb, cg)
+    # vacuity guard of the exception model: the number parsers of the text formats call the throwing library conversions
+    # (std::stoi, std::stod) - if the model does not see them, a narrowed handler around them goes unnoticed
+    xf.escaping(fb.find1('TextIO::readFEN')) if fb.find1('TextIO::readFEN') else None
+    conv = {n for _, n in xf.std_sites if n.split('::')[-1] in ('stoi', 'stol', 'stod', 'stoul', 'stoll', 'stoull', 'stof')}
+    rep.floor(clause, 'throwing number conversions seen by the exception model', len(conv), 2)
     for nm in ('TextIO::readFEN', 'TextIO::stringToMove', 'TextIO::uciStringToMove', 'TextIO::moveToString', 'TextIO::toFEN'):
         fs = fb.find(nm)
         if rep.need(clause, fs, nm) is None:
